@@ -34,10 +34,8 @@ func traceLines(tr []Ev) []string {
 
 // include asks the model whether the trace is one of its traces. Returns "" or the reject line.
 func include(d *lib.Drv, variant string, tr []Ev, askStuck bool) (reject string, maxSet int, stuck string, err error) {
-	lines := append([]string{"reset variant=" + variant}, traceLines(tr)...)
-	if strings.Contains(variant, " ") { // "fixed reduce=0"
-		lines[0] = "reset variant=" + variant
-	}
+	lines := append([]string{"reset hooked=1 variant=" + variant}, traceLines(tr)...)
+
 	if askStuck {
 		lines = append(lines, "stuck")
 	}
@@ -113,6 +111,9 @@ func main() {
 			}
 		}
 		cr := caseRec{Scenario: sc, Seed: seed, Trace: traceLines(o.Trace), Stuck: o.Stuck, Dump: o.Dump}
+		if tf := os.Getenv("C11_TRACEFILE"); tf != "" {
+			os.WriteFile(tf, []byte("reset hooked=1 variant=fixed\n"+strings.Join(cr.Trace, "\n")+"\n"), 0o644)
+		}
 		// distribution
 		res.Hit("family:" + sc.Family)
 		nrecv, nsret, nclose := 0, 0, 0
